@@ -79,6 +79,7 @@ def dump(repo: str) -> dict:
             "precision": int(getattr(d, "precision", 6)),
             "size": int(getattr(d, "size", 1)),
             "has_scale": hasattr(d, "multiplier"),
+            "has_offset": hasattr(d, "offset"),
         }
 
     out: dict = {}
@@ -266,13 +267,70 @@ def emit_lean(d: dict) -> dict[str, str]:
     body += f"def regdataVersion : String := {lean_str(sn['regdataVersion'])}\n\n"
     body += "end PlumVerif.Gen\n"
     files["Sensors.lean"] = body
+    files["Scaling.lean"] = emit_scaling(d, hdr)
     return files
+
+
+def scaling_info(d: dict) -> dict:
+    """Per table: which scaling attributes its number descriptions carry (must be uniform,
+    the conversion class is chosen per table by the device code); the distinct
+    (uses offset, multiplier, offset, precision, size) combinations of all scaled rows."""
+    attrs = {}
+    combos = []
+    tables = dict(d["tables"])
+    tables["thermostatProfile"] = [d["special"]["thermostatProfile"]]
+    tables["ecomaxControl"] = [d["special"]["ecomaxControl"]]
+    for name, rows in tables.items():
+        nums = [r for r in rows if not r["switch"]]
+        kinds = {(r["has_scale"], r["has_offset"]) for r in nums}
+        if len(kinds) > 1:
+            raise SystemExit(f"table {name}: number descriptions with and without scaling attributes: {kinds}")
+        has_scale, has_offset = kinds.pop() if kinds else (False, False)
+        attrs[name] = [bool(has_scale), bool(has_offset)]
+        if has_scale:
+            for r in nums:
+                c = [bool(has_offset), r["mult_num"], r["mult_den"], r["offset"] if has_offset else 0,
+                     r["precision"], r["size"]]
+                if r["mult_num"] <= 0 or r["precision"] < 0 or r["size"] < 1:
+                    raise SystemExit(f"table {name}: row {r['name']} outside the modelled domain: {r}")
+                if c not in combos:
+                    combos.append(c)
+    combos.sort()
+    return {"attrs": attrs, "combos": combos}
+
+
+def emit_scaling(d: dict, hdr: str) -> str:
+    info = scaling_info(d)
+    body = hdr + "namespace PlumVerif.Gen\n\n"
+    body += (
+        "/-- per table: (number descriptions have multiplier/precision, number descriptions have offset) -/\n"
+        "def tableAttrs : List (String × Bool × Bool) := "
+        + lean_list(
+            [f"({lean_str(n)}, {'true' if a else 'false'}, {'true' if b else 'false'})" for n, (a, b) in info["attrs"].items()], 2
+        )
+        + "\n\n"
+    )
+    body += (
+        "/-- a distinct scaling combination of the number descriptions -/\n"
+        "structure Combo where\n  useOffset : Bool\n  multNum : Nat\n  multDen : Nat\n  offset : Nat\n"
+        "  precision : Nat\n  size : Nat\nderiving Repr, DecidableEq, Inhabited\n\n"
+    )
+    body += (
+        "def combos : List Combo := "
+        + lean_list(
+            [f"⟨{'true' if c[0] else 'false'}, {c[1]}, {c[2]}, {c[3]}, {c[4]}, {c[5]}⟩" for c in info["combos"]], 1
+        )
+        + "\n\n"
+    )
+    body += "end PlumVerif.Gen\n"
+    return body
 
 
 def main() -> int:
     repo = os.path.abspath(sys.argv[1])
     outdir = sys.argv[2]
     d = dump(repo)
+    d["scaling"] = scaling_info(d)
     changed = []
     for name, content in emit_lean(d).items():
         if write_if_changed(os.path.join(outdir, name), content):
